@@ -612,7 +612,7 @@ fn cmd_check(args: &[String]) -> i32 {
         }
     }
     // 4. violations: one minimised, fresh-process-verified replay per signature
-    let known = read_known(&format!("{}/known_findings.jsonl", VERIF));
+    let known = read_known(&format!("{}/known_findings.txt", VERIF));
     let mut by_sig: BTreeMap<String, (bool, u64, String)> = BTreeMap::new();
     m.violations.sort();
     for (fi_flag, idx, sig, det) in m.violations.iter() {
